@@ -99,9 +99,11 @@ func ruleT18(r *Run) {
 				}
 				return true
 			})
-			if len(names) < 2 {
+			if len(names) < 1 {
 				continue
 			}
+			// a factory with one such return agrees with itself: it is counted, so that the rule keeps its subject when the
+			// choice of the encoder moves into a helper and each factory is left with a single return
 			same := true
 			for _, nm := range names {
 				if nm != names[0] {
